@@ -1206,7 +1206,17 @@ func (r *raft) Step(m *pb.Message) error {
 		if len(m.GetEntries()) > 0 {
 			index := m.GetEntries()[len(m.GetEntries())-1].GetIndex()
 			r.appliedTo(index, entsSize(m.GetEntries()))
-			r.reduceUncommittedSize(payloadsSize(m.GetEntries()))
+			// Only entries appended in the current term were ever added to
+			// uncommittedSize (it is reset on every term change), so only those
+			// may be deducted; an applied backlog from earlier terms must not
+			// free up quota it never used.
+			var ownTerm entryPayloadSize
+			for _, e := range m.GetEntries() {
+				if e.GetTerm() == r.Term {
+					ownTerm += payloadSize(e)
+				}
+			}
+			r.reduceUncommittedSize(ownTerm)
 		}
 
 	case pb.MsgVote, pb.MsgPreVote:
